@@ -11,6 +11,9 @@ package dnssec
 
 import (
 	"encoding/base64"
+	"encoding/json"
+	"os"
+	"path/filepath"
 	"sort"
 	"errors"
 	"fmt"
@@ -93,7 +96,7 @@ func vC01GenSig(r *rand.Rand, pool *vC01Pool, tr *vC01Trace) {
 	var kinds []string
 	// a same-tag sibling of the ZSK: a second genuine zone key, or an unrelated key
 	var twin *vC01Key
-	if len(pool.pairs) > 0 && r.Intn(3) == 0 {
+	if len(pool.pairs) > 0 && vC01Pin("sig.twin", r.Intn(3)) == 0 {
 		p := pool.pairs[r.Intn(len(pool.pairs))]
 		zsk = w.keyFromSeed(zone, 256, dns.ED25519, p[0])
 		twin = w.keyFromSeed(zone, 256, dns.ED25519, p[1])
@@ -141,7 +144,7 @@ func vC01GenSig(r *rand.Rand, pool *vC01Pool, tr *vC01Trace) {
 			}
 		}
 	}
-	shape := r.Intn(7)
+	shape := vC01Pin("sig.shape", r.Intn(7))
 	switch shape {
 	case 0, 1: // address RRset
 		n := 1 + r.Intn(3)
@@ -160,13 +163,13 @@ func vC01GenSig(r *rand.Rand, pool *vC01Pool, tr *vC01Trace) {
 		d := &dns.DNAME{Hdr: dns.RR_Header{Name: vC01Sub("d", zone), Rrtype: dns.TypeDNAME, Class: dns.ClassINET, Ttl: 300}, Target: "t.other."}
 		addSet(&ans, zsk, d)
 		target := "x.t.other."
-		if r.Intn(4) == 0 {
+		if vC01Pin("sig.badsynth", r.Intn(4)) == 0 {
 			target = "x.wrong.other." // not what the DNAME yields
 			kinds = append(kinds, "bad-synthesis")
 			altered[strings.ToLower(vC01Sub("x.d", zone))+"|5"] = true
 		}
 		cOwner := vC01Sub("x.d", zone)
-		switch r.Intn(5) {
+		switch vC01Pin("sig.cnameplace", r.Intn(5)) {
 		case 0: // an unsigned CNAME AT the DNAME owner pointing at the DNAME target: not a synthesis (RFC 6672: names BELOW the owner)
 			cOwner, target = vC01Sub("d", zone), "t.other."
 			kinds = append(kinds, "cname-at-dname-owner")
@@ -209,7 +212,7 @@ func vC01GenSig(r *rand.Rand, pool *vC01Pool, tr *vC01Trace) {
 		kinds = append(kinds, "negative")
 	}
 	// authority
-	switch r.Intn(4) {
+	switch vC01Pin("sig.auth", r.Intn(4)) {
 	case 0:
 		soa := &dns.SOA{Hdr: dns.RR_Header{Name: zone, Rrtype: dns.TypeSOA, Class: dns.ClassINET, Ttl: 300}, Ns: "ns.", Mbox: "h.", Serial: 1, Refresh: 1, Retry: 1, Expire: 1, Minttl: 60}
 		addSet(&ns, zsk, soa)
@@ -235,7 +238,7 @@ func vC01GenSig(r *rand.Rand, pool *vC01Pool, tr *vC01Trace) {
 	}
 
 	// ---- tampering ----
-	nops := []int{0, 0, 1, 1, 1, 2, 3}[r.Intn(7)]
+	nops := []int{0, 0, 1, 1, 1, 2, 3}[vC01Pin("sig.nops", r.Intn(7))]
 	var ops []string
 	pickSig := func() *vC01Sig {
 		if len(signed) == 0 {
@@ -391,7 +394,7 @@ func vC01GenSig(r *rand.Rand, pool *vC01Pool, tr *vC01Trace) {
 	for _, k := range trusted {
 		keyList = append(keyList, k.key)
 	}
-	switch r.Intn(12) {
+	switch vC01Pin("sig.keys", r.Intn(12)) {
 	case 0: // a key without the ZONE bit / wrong protocol rides along
 		bad := w.cloneKey(zsk, zone, 0)
 		keyList = append([]*dns.DNSKEY{bad.key}, keyList...)
@@ -418,7 +421,7 @@ func vC01GenSig(r *rand.Rand, pool *vC01Pool, tr *vC01Trace) {
 	msg.SetQuestion(vC01Sub("www", zone), dns.TypeA)
 	msg.Answer, msg.Ns = ans, ns
 	signerArg := zone
-	if r.Intn(10) == 0 {
+	if vC01Pin("sig.upper", r.Intn(10)) == 0 {
 		signerArg = strings.ToUpper(zone)
 	}
 	t0 := time.Now().Unix()
@@ -496,7 +499,7 @@ func vC01GenDS(r *rand.Rand, pool *vC01Pool, tr *vC01Trace) {
 	keys := []*dns.DNSKEY{ksk.key, zsk.key}
 	var kinds []string
 	var twin *vC01Key
-	if len(pool.pairs) > 0 && r.Intn(3) == 0 {
+	if len(pool.pairs) > 0 && vC01Pin("ds.twin", r.Intn(3)) == 0 {
 		p := pool.pairs[r.Intn(len(pool.pairs))]
 		ksk = w.keyFromSeed(zone, 256, dns.ED25519, p[0]) // a ZONE-bit key the DS points at
 		twin = w.keyFromSeed(zone, 256, dns.ED25519, p[1])
@@ -509,10 +512,10 @@ func vC01GenDS(r *rand.Rand, pool *vC01Pool, tr *vC01Trace) {
 	}
 	other := w.newKey(zone, 257, dns.ED25519) // a key the child does not publish
 	var dsset []dns.RR
-	n := 1 + r.Intn(3)
+	n := 1 + vC01Pin("ds.n", r.Intn(3))
 	for i := 0; i < n; i++ {
 		dt := []uint8{dns.SHA256, dns.SHA256, dns.SHA1, dns.SHA384}[r.Intn(4)]
-		switch r.Intn(14) {
+		switch vC01Pin("ds.entry", r.Intn(14)) {
 		case 0, 1, 2, 3:
 			if d := w.ds(ksk.key, dt); d != nil {
 				dsset = append(dsset, d)
@@ -589,7 +592,7 @@ func vC01GenDS(r *rand.Rand, pool *vC01Pool, tr *vC01Trace) {
 			}
 		}
 	}
-	switch r.Intn(10) {
+	switch vC01Pin("ds.final", r.Intn(10)) {
 	case 0: // the DS-matched key lacks the ZONE bit / protocol 3 in the child's set
 		bad := w.cloneKey(ksk, zone, 1)
 		keys = []*dns.DNSKEY{bad.key, zsk.key}
@@ -651,7 +654,7 @@ func vC01GenWild(r *rand.Rand, tr *vC01Trace) {
 	now := uint32(time.Now().Unix())
 	zsk := w.newKey(zone, 256, dns.ED25519)
 	var ans, ns []dns.RR
-	nsig := 1 + r.Intn(2)
+	nsig := 1 + vC01Pin("wild.nsig", r.Intn(2))
 	var kinds []string
 	for i := 0; i < nsig; i++ {
 		lbl := []string{"w", "v"}[i%2]
@@ -664,7 +667,7 @@ func vC01GenWild(r *rand.Rand, tr *vC01Trace) {
 		if r.Intn(4) == 0 {
 			owner = vC01Sub("a.b."+lbl, zone) // two labels under the wildcard's parent
 		}
-		if r.Intn(5) == 0 { // not an expansion at all
+		if vC01Pin("wild.exact", r.Intn(5)) == 0 { // not an expansion at all
 			set = []dns.RR{vC01A(owner, 300, byte(40+i))}
 			s, _ = w.sign(zsk, set, now-3600, now+3600)
 			kinds = append(kinds, "exact")
@@ -675,7 +678,7 @@ func vC01GenWild(r *rand.Rand, tr *vC01Trace) {
 		s.Hdr.Name = owner
 		// an RRset may carry several signatures (key or algorithm rollover, replayed or junk ones), in any order
 		// and with differing Labels fields; each one is looked at
-		switch r.Intn(6) {
+		switch vC01Pin("wild.multi", r.Intn(6)) {
 		case 0: // a full-label-count signature with garbage octets ahead of the real one
 			d := dns.Copy(s).(*dns.RRSIG)
 			d.Labels = uint8(dns.CountLabel(owner))
@@ -695,7 +698,7 @@ func vC01GenWild(r *rand.Rand, tr *vC01Trace) {
 			ans = append(ans, exp, s)
 		}
 		// denial material
-		switch r.Intn(6) {
+		switch vC01Pin("wild.denial", r.Intn(6)) {
 		case 0, 1: // NSEC covering the next closer name
 			ncl := vC01NextCloser(owner, s.Labels)
 			nsec := &dns.NSEC{Hdr: dns.RR_Header{Name: vC01Sub(lbl, zone), Rrtype: dns.TypeNSEC, Class: dns.ClassINET, Ttl: 60}, NextDomain: "zz." + ncl, TypeBitMap: []uint16{dns.TypeRRSIG, dns.TypeNSEC}}
@@ -818,12 +821,52 @@ func vC01GenSigner(r *rand.Rand, tr *vC01Trace) {
 	tr.emit(map[string]any{"k": k, "coq": w.wrap(body), "nontrivial": true, "desc": map[string]any{"signer": signer, "qname": qname, "err": fmt.Sprint(err)}})
 }
 
+// corpus scenarios pin the generator choices that define them (everything else stays drawn)
+var vC01Pins map[string]int
+
+func vC01Pin(name string, drawn int) int {
+	if v, ok := vC01Pins[name]; ok {
+		return v
+	}
+	return drawn
+}
+
 func TestVerifC01Dnssec(t *testing.T) {
 	tr := vC01Open(t)
 	seed := int64(vC01EnvInt("VERIF_SEED", 1))
 	n := vC01EnvInt("VERIF_N", 600)
 	r := rand.New(rand.NewSource(seed*7919 + 101))
 	pool := vC01BuildPool(rand.New(rand.NewSource(seed+5)), 1500, 256)
+	if dir := os.Getenv("VERIF_CORPUS"); dir != "" {
+		files, _ := filepath.Glob(filepath.Join(dir, "dnssec-*.json"))
+		sort.Strings(files)
+		for _, fn := range files {
+			raw, err := os.ReadFile(fn)
+			if err != nil {
+				continue
+			}
+			var c struct {
+				Kind string
+				Pins map[string]int
+			}
+			if json.Unmarshal(raw, &c) != nil {
+				continue
+			}
+			vC01Pins = c.Pins
+			cr := rand.New(rand.NewSource(77))
+			for j := 0; j < 4; j++ {
+				switch c.Kind {
+				case "sig":
+					vC01GenSig(cr, pool, tr)
+				case "ds":
+					vC01GenDS(cr, pool, tr)
+				case "wild":
+					vC01GenWild(cr, tr)
+				}
+			}
+			vC01Pins = nil
+		}
+	}
 	for i := 0; i < n; i++ {
 		switch {
 		case i%10 < 6:
